@@ -70,8 +70,8 @@ structure St where
   d : Doc := {}
   deriving Repr
 
-def St.init (regSize : Nat) : St :=
-  { f := { regSize := regSize, nodes := [.section 0], sectionNodes := [(0, 0)] },
+def St.init (regSize : Nat) (isCompiler : Bool := false) : St :=
+  { f := { regSize := regSize, nodes := [.section 0], sectionNodes := [(0, 0)], isCompiler := isCompiler },
     d := { items := [0], gap := 1, secNodes := [0] } }
 
 def rangePre (d : Doc) : Op → Bool
@@ -87,6 +87,16 @@ def run (s : St) (ops : List Op) : St := ops.foldl (fun s op => (step s op).1) s
 
 /-- the emitter calls the document stands for -/
 def linearize (s : St) : List Call := s.d.items.map fun n => (nodeAt s.f n).toCall
+
+/-- finalize of a Compiler: the pending global constant pool becomes the LAST item of the document, whatever the gap position is
+    (the gap itself stays where it was) -/
+def runPasses (s : St) : St :=
+  match s.f.gpool, s.d.items.getLast? with
+  | some n, some r => { f := { s.f with gpool := none }, d := s.d.apply (.addAfter n r) }
+  | _, _ => s
+
+/-- what finalize hands to the assembler: the document's calls, then the global constant pool -/
+def finalizeCalls (s : St) : List Call := linearize (runPasses s)
 
 /-! ## Section projection: what one section receives from a call sequence -/
 
